@@ -134,8 +134,8 @@ def run(rp):
         out["confirmed"] = True
         out["why"] = f"real function violates {kindname} on the model input"
     elif out["violated"]:
-        out["confirmed"] = True
-        out["why"] = f"real function violates {out['violated']} on the model input (obligation reported: {kindname})"
+        # a different clause fails natively: not a confirmation of THIS obligation (often the harness could not build a realistic input)
+        out["why"] = f"real function violates {out['violated']} on the model input, but not the reported obligation {kindname}"
     else:
         out["why"] = "real function satisfies every clause on the model input"
     return out
